@@ -25,7 +25,7 @@ Record InvC (s : st) : Prop := {
   C_acc : g_accepted s = accepted_ids (g_done s) ++ map fst (s_queue s);
   C_sorted : StronglySorted N.lt (g_accepted s);
   C_bound : Forall (fun i => i < h_next s) (g_accepted s);
-  C_kind : Forall (fun c => c_kind c = K_ANSWERED \/ (c_kind c = K_REJECTED /\ c_reply c = fts)) (g_done s) }.
+  C_kind : Forall (fun c => c_kind c = K_ANSWERED \/ c_reply c = fts) (g_done s) }.
 
 Definition cview (s : st) := (g_done s, s_queue s, h_next s, g_accepted s).
 
@@ -35,7 +35,9 @@ Definition ctrans (s s' : st) : Prop :=
      cview s' = (g_done s ++ [mkComp id K_ANSWERED rep parts fr], rest, h_next s, g_accepted s)) \/
   cview s' = (g_done s ++ [mkComp (h_next s) K_REJECTED fts [] []], s_queue s, h_next s + 1, g_accepted s) \/
   (exists cb, cview s' = (g_done s, s_queue s ++ [(h_next s, cb)], h_next s + 1,
-                          g_accepted s ++ [h_next s])).
+                          g_accepted s ++ [h_next s])) \/
+  (exists id cb rest, s_queue s = (id, cb) :: rest /\
+     cview s' = (g_done s ++ [mkComp id K_DESTROYED fts [] []], rest, h_next s, g_accepted s)).
 
 Lemma mock_send_cv id s ag s' ag' : mock_send id s ag = (s', ag') -> cview s' = cview s.
 Proof.
@@ -105,26 +107,33 @@ Proof.
         cview s' = (g_done s ++ [mkComp id K_ANSWERED rep parts fr], rest, h_next s, g_accepted s)) \/
      cview s' = (g_done s ++ [mkComp (h_next s) K_REJECTED fts [] []], s_queue s, h_next s + 1, g_accepted s) \/
      (exists cb, cview s' = (g_done s, s_queue s ++ [(h_next s, cb)], h_next s + 1,
-                          g_accepted s ++ [h_next s]))).
+                          g_accepted s ++ [h_next s])) \/
+     (exists id cb rest, s_queue s = (id, cb) :: rest /\
+        cview s' = (g_done s ++ [mkComp id K_DESTROYED fts [] []], rest, h_next s, g_accepted s))).
   { intros s0 E Hp. apply (cpop_eqv _ _ _ E) in Hp. destruct Hp as [Hp|Hp]; auto. }
-  destruct f as [[cb|full cb| | |r|]| | |]; cbn [step do_op] in H.
+  destruct f as [[cb|full cb| | |r|]| | | |]; cbn [step do_op] in H.
   - destruct (s_max s <=? len (s_queue s)).
     + inversion H; subst. right; right; left. reflexivity.
-    + apply take_next_cv in H. right; right; right. exists cb. rewrite H. reflexivity.
-  - destruct (s_discov s).
+    + apply take_next_cv in H. right; right; right; left. exists cb. rewrite H. reflexivity.
+  - destruct (s_discov s && negb (h_destroying s)).
     + apply take_next_cv in H. left. rewrite H. reflexivity.
     + inversion H; subst. left; reflexivity.
   - inversion H; subst. left; reflexivity.
   - apply take_next_cv in H. left. rewrite H. reflexivity.
-  - destruct (m_out s).
+  - destruct (h_destroying s); [inversion H; subst; left; reflexivity|].
+    destruct (m_out s).
     + inversion H; subst. left; reflexivity.
     + apply handle_cv in H. eapply Hpop; [|exact H]. reflexivity.
-  - destruct (m_dout s).
+  - destruct (h_destroying s); [inversion H; subst; left; reflexivity|].
+    destruct (m_dout s).
     + inversion H; subst. left; reflexivity.
     + unfold disc_complete in H. inversion H; subst. left; reflexivity.
   - apply take_next_cv in H. left. rewrite H. reflexivity.
   - inversion H; subst. left; reflexivity.
   - apply take_next_cv in H. left. rewrite H. reflexivity.
+  - destruct (h_destroying s); [|inversion H; subst; left; reflexivity].
+    unfold destroy_next in H. destruct (s_queue s) as [|[id cb] q] eqn:Eq; inversion H; subst; [left; reflexivity|].
+    right; right; right; right. exists id, cb, q. split; [reflexivity|]. unfold cview, fts; cbn. reflexivity.
 Qed.
 
 Lemma count_id_app i a b : count_id i (a ++ b) = Nat.add (count_id i a) (count_id i b).
@@ -144,7 +153,7 @@ Qed.
 Lemma ctrans_C s s' : InvC s -> ctrans s s' -> InvC s'.
 Proof.
   intros [Hcnt Hacc Hso Hb Hk] Ht. unfold ctrans, cview in Ht.
-  destruct Ht as [E|[(id & cb & rest & rep & parts & fr & Eq & E)|[E|(cb & E)]]]; inversion E as [[E1 E2 E3 E4]];
+  destruct Ht as [E|[(id & cb & rest & rep & parts & fr & Eq & E)|[E|[(cb & E)|(id & cb & rest & Eq & E)]]]]; inversion E as [[E1 E2 E3 E4]];
     clear E.
   - constructor; rewrite ?E1, ?E2, ?E3, ?E4; auto.
   - constructor; rewrite ?E1, ?E2, ?E3, ?E4; auto.
@@ -156,7 +165,7 @@ Proof.
       destruct (N.eqb_spec (h_next s) i), (N.ltb_spec i (h_next s)), (N.ltb_spec i (h_next s + 1)); lia.
     + rewrite accepted_ids_app. cbn. rewrite app_nil_r. auto.
     + eapply Forall_impl; [|exact Hb]. cbn; intros; lia.
-    + apply Forall_app; split; auto; constructor; auto; try (right; split; reflexivity).
+    + apply Forall_app; split; auto; constructor; auto; try (right; reflexivity).
   - constructor; rewrite ?E1, ?E2, ?E3, ?E4; auto.
     + intros i. specialize (Hcnt i). rewrite count_q_app. cbn.
       destruct (N.eqb_spec (h_next s) i), (N.ltb_spec i (h_next s)), (N.ltb_spec i (h_next s + 1)); lia.
@@ -165,6 +174,10 @@ Proof.
     + apply Forall_app; split.
       * eapply Forall_impl; [|exact Hb]. cbn; intros; lia.
       * constructor; [lia|constructor].
+  - constructor; rewrite ?E1, ?E2, ?E3, ?E4; auto.
+    + intros i. specialize (Hcnt i). rewrite Eq in Hcnt. rewrite count_id_app. cbn in *. lia.
+    + rewrite Hacc, Eq, accepted_ids_app. cbn. rewrite <- app_assoc. reflexivity.
+    + apply Forall_app; split; auto.
 Qed.
 
 Lemma InvC_init max discov ms ds : InvC (init max discov ms ds).
